@@ -308,6 +308,10 @@ End Collector.
 Definition src_kc (running : bool) (index size : nat) : bool := keep_looping (b2z running) (Z.of_nat index) (Z.of_nat size).
 Definition step : st -> nat -> option st := gstep src_kc.
 
+(* the loop as it was before fix e0cd24e (`while (running)`): kept for the regression witness of finding F2 *)
+Definition orig_kc (running : bool) (index size : nat) : bool := running.
+Definition step_orig : st -> nat -> option st := gstep orig_kc.
+
 (* the repaired loop: keep going while tasks taken from the queue are still waiting for the low water mark *)
 Definition fixed_kc (running : bool) (index size : nat) : bool := running || Nat.ltb index size.
 Definition step_fixed : st -> nat -> option st := gstep fixed_kc.
